@@ -34,9 +34,9 @@ use regex::Regex;
 
 /// Verification hook, compiled only with `--cfg parol_verif` (never in normal builds): a gate that
 /// lets a test harness decide when a background analysis thread of `Server::check_grammar` starts
-/// its work, when it publishes, and whether it finishes inside the window between its spawn and
-/// the handler's own publish. With the gate unset (`STATE` is `None`, the default) every function
-/// returns immediately and nothing changes.
+/// its work, when it publishes, and which threads finish inside the window between the handler's
+/// `analyze` and the handler's own publish. With the gate unset (`STATE` is `None`, the default)
+/// every function returns immediately and nothing changes.
 #[cfg(parol_verif)]
 pub(crate) mod verif_gate {
     use std::sync::{Condvar, Mutex, MutexGuard};
@@ -52,7 +52,7 @@ pub(crate) mod verif_gate {
 
     #[derive(Debug, Default)]
     pub(crate) struct State {
-        /// versions for which `check_grammar` spawned a thread, in spawn order
+        /// versions for which a handler spawned an analysis thread, in spawn order
         pub(crate) spawned: Vec<i32>,
         /// (version, point) pairs reached so far
         pub(crate) reached: Vec<(i32, u8)>,
@@ -126,8 +126,10 @@ pub(crate) mod verif_gate {
         Finished(version)
     }
 
-    /// Main thread, between the return of `analyze` (the thread is spawned if it succeeded) and the
-    /// handler's `notify_analysis_ok` / `notify_analysis_error`: runs the threads named in `window_plan` to completion.
+    /// Main thread, between the return of `analyze` and the handler's `notify_analysis_ok` /
+    /// `notify_analysis_error`: runs the threads named in `window_plan` to completion. The thread of
+    /// the version being handled is spawned only after `notify_analysis_ok`; it is not in `spawned`
+    /// here and is skipped like a thread that does not exist.
     pub(crate) fn main_window(_version: i32) {
         let mut guard = lock();
         let plan = match guard.as_mut() {
@@ -293,8 +295,6 @@ impl Server {
         )?;
         grammar_config.update_cfg(cfg);
         let grammar_config = grammar_config.clone();
-        #[cfg(parol_verif)]
-        verif_gate::spawned(version);
         Ok(Box::new(move || match grammar_config.grammar_type {
             GrammarType::LLK => {
                 #[cfg(parol_verif)]
@@ -391,6 +391,8 @@ impl Server {
                 )?;
                 // Only now, after the (so far empty) diagnostics of this version are published,
                 // the background analysis may run and publish its own diagnostics.
+                #[cfg(parol_verif)]
+                verif_gate::spawned(params.text_document.version);
                 thread::spawn(background_analysis);
             }
             Err(err) => {
@@ -437,6 +439,8 @@ impl Server {
                 )?;
                 // Only now, after the (so far empty) diagnostics of this version are published,
                 // the background analysis may run and publish its own diagnostics.
+                #[cfg(parol_verif)]
+                verif_gate::spawned(params.text_document.version);
                 thread::spawn(background_analysis);
             }
             Err(err) => {
